@@ -852,7 +852,13 @@ fn dump<'tcx>(tcx: TyCtxt<'tcx>, out_dir: &str, tag: &str) {
                             match rv {
                                 Rvalue::Use(o, _) | Rvalue::Cast(_, o, _) | Rvalue::UnaryOp(_, o) | Rvalue::Repeat(o, _) => ops.push(o),
                                 Rvalue::BinaryOp(_, ab) => { ops.push(&ab.0); ops.push(&ab.1); }
-                                Rvalue::Aggregate(_, os) => { for o in os.iter() { ops.push(o); } }
+                                Rvalue::Aggregate(k, os) => {
+                                    if let AggregateKind::Adt(d, vi, ..) = &**k {
+                                        let def = tcx.adt_def(*d);
+                                        items.push(s(format!("{}::{}", cx.path_str(*d), def.variant(*vi).name)));
+                                    }
+                                    for o in os.iter() { ops.push(o); }
+                                }
                                 _ => {}
                             }
                             for o in ops {
